@@ -64,6 +64,26 @@ def consecutive_leaves(name, n, leavers, survivors_settle=True):
     return {"name": name, "layout": layout, "variant": 1, "gates": ["join:", "leave:", "start:", "rtj:lock"], "steps": steps, "fingers": True}
 
 
+def overlapping_rounds_after_crash():
+    """two stabilize rounds of one node overlap (the periodic round and a slow earlier one): round X computes its list while the node's first
+    successor has crashed and the second does not answer, and is held before it installs it; the second successor answers again; round Y
+    computes the correct list, installs it and is held before it notifies the new successor; X installs its stale list and finishes, Y
+    finishes.  Whatever the node is left with, the following rounds must repair it: the quiet period ends with the true successor lists."""
+    layout = [{"n": "n%d" % i} for i in range(4)]
+    steps = [{"do": "create", "n": "n0"}]
+    for i in range(1, 4):
+        steps += [{"do": "start", "op": "j%d" % i, "kind": "join", "n": "n%d" % i, "via": "n0"}, {"do": "steps", "op": "j%d" % i}, {"do": "settle"}]
+    steps += [{"do": "settle", "rounds": 8},
+              {"do": "setstate", "n": "n1", "state": "Left"}, {"do": "setstate", "n": "n2", "state": "Left"},
+              {"do": "start", "op": "sbX", "kind": "stabilize", "n": "n0"},
+              {"do": "setstate", "n": "n2", "state": "Active"},
+              {"do": "start", "op": "sbY", "kind": "stabilize", "n": "n0"}, {"do": "until", "op": "sbY", "gate": "stn:notify"},
+              {"do": "steps", "op": "sbX"}, {"do": "steps", "op": "sbY"},
+              {"do": "settle", "rounds": 24}]
+    return {"name": "overlapping-rounds-after-crash", "layout": layout, "variant": 1, "gates": ["join:", "leave:", "start:", "rtj:lock", "stab:", "stn:"],
+            "steps": steps, "fingers": True}
+
+
 def run(ck):
     t = lambda b: "TRUE" if b else "FALSE"
     # design: a member whose successor list names departed nodes only is a dead end of convergence.  Instance with a list of 2 entries
@@ -80,6 +100,21 @@ def run(ck):
         rv = ck.tlc("MC_ChordRing", dead_cfg.replace("FixDead = TRUE", "FixDead = FALSE"), allow_error=True, timeout=900, workers=4, count=False)
         if not rv.error:
             raise vf.Infra("ChordRing without the fallback is expected to violate InvNoDeadEnd (vacuous instance?)")
+    # overlapping stabilize rounds of one node (compute / install / notify), the remembered fingerprint of the installed list, crashed nodes:
+    # at a maintenance fixpoint every member's first successor is the next member.  The variant that remembers the fingerprint after the
+    # Notify call must be refuted (its counterexample is the shape of the directed scenario overlapping-rounds-after-crash below)
+    fpk = dict(lay="Lay4", init="{1, 2, 3, 4}", joiners="{}", leavers="{}", maxops=0, invs="InvNoWrongFixpoint")
+    codeargs = (ringcheck.CODE_FIXPRED, ringcheck.CODE_FIXLEAVE, ringcheck.CODE_FIXWRAP)
+    rf = ck.tlc("MC_ChordKV", ringlib.mc_cfg(*codeargs, opkinds='{"fp", "crash2"}', **fpk), allow_error=True, timeout=900, workers=8)
+    if rf.error:
+        ck.notes.append("ChordKV with three-phase rounds and a crashed node reaches a wrong maintenance fixpoint (%s): the real fixpoints below decide" % rf.error["name"])
+    rl = ck.tlc("MC_ChordKV", ringlib.mc_cfg(*codeargs, opkinds='{"fp", "crash2", "fplate"}', **fpk), allow_error=True, timeout=900, workers=4, count=False)
+    if not rl.error or rl.error["name"] != "InvNoWrongFixpoint":
+        raise vf.Infra("ChordKV with the fingerprint remembered after the Notify call is expected to violate InvNoWrongFixpoint (vacuous instance?)")
+    if ck.thorough:       # also a member that does not answer for a while (123 M states)
+        rt = ck.tlc("MC_ChordKV", ringlib.mc_cfg(*codeargs, opkinds='{"fp", "crash2", "flap3"}', **fpk), allow_error=True, timeout=3000, workers=min(vf.NCPU, 12))
+        if rt.error:
+            ck.notes.append("ChordKV with three-phase rounds, a crashed and a silent node reaches a wrong maintenance fixpoint (%s): the real fixpoints below decide" % rt.error["name"])
     r = ck.tlc("MC_ChordRing", LIVE_CFG % dict(fp=t(ringcheck.CODE_FIXPRED), fl=t(ringcheck.CODE_FIXLEAVE), fw=t(ringcheck.CODE_FIXWRAP), fd=t(ringcheck.CODE_FIXDEAD)),
                allow_error=True, timeout=1500, workers=min(vf.NCPU, 12))
     lead = r.error is not None
@@ -102,6 +137,7 @@ def run(ck):
         scenarios.append(consecutive_leaves("consecutive-leaves-7-two-remain", 7, [1, 2, 3, 4, 5]))
         scenarios.append(consecutive_leaves("consecutive-leaves-7-one-remains", 7, [1, 2, 3, 4, 5, 6]))
         scenarios.append(consecutive_leaves("consecutive-leaves-9-four-remain", 9, [2, 3, 4, 5, 6]))
+        scenarios.append(overlapping_rounds_after_crash())
         if ck.thorough:
             scenarios.append(consecutive_leaves("consecutive-leaves-10-descending", 10, [7, 6, 5, 4, 3, 2]))
             scenarios.append(consecutive_leaves("consecutive-leaves-12-two-runs", 12, [1, 2, 3, 4, 5, 7, 8, 9, 10, 11]))
